@@ -11,7 +11,7 @@ the reader list handed to increment_ext_reads is exactly the flag-derived reader
 import re
 
 from vf.extract import extract_item
-from vf.unit import Unit
+from vf.unit import Unit, unfilter_map_collect_set, unoption_filter, unmap_or
 
 PRELUDE = r'''
 #![allow(unused_imports, unused_variables, dead_code, unused_mut, unused_parens)]
@@ -31,6 +31,7 @@ pub trait Field: Sized + Copy {
     fn two() -> (r: Self) ensures r == Self::ftwo();
     fn from_bool(b: bool) -> (r: Self) ensures r == (if b { Self::fone() } else { Self::fzero() });
     fn feq(&self, o: Self) -> (r: bool) ensures r == (*self == o);
+    fn is_zero(&self) -> (r: bool) ensures r == (*self == Self::fzero());
 }
 pub struct NpoTypeId { pub _p: () }
 pub struct NonPrimitivePreprocessedMap<F> { pub _p: core::marker::PhantomData<F> }
@@ -92,6 +93,10 @@ pub open spec fn occ(w: Seq<WitnessId>, s: u32) -> int decreases w.len() {
 }
 pub open spec fn rd(v: Seq<u32>, s: u32) -> int { if (s as int) < v.len() { v[s as int] as int } else { 0 } }
 pub open spec fn one_creator(c: Cnt) -> bool { forall|s: u32| 0 <= #[trigger] c(s) <= 1 }
+/// C09 third clause for one operand column: a slot that has a creator somewhere (defined earlier, an input / hint slot, or the slot this row creates through `out`) is not left off the bus
+pub open spec fn on_bus_when_created(def: Seq<bool>, w: u32, out: u32, privs: Set<u32>, hints: Set<u32>, skipped: bool) -> bool {
+    (((w as int) < def.len() && def[w as int]) || privs.contains(w) || hints.contains(w) || w == out) ==> !skipped
+}
 pub open spec fn defined_is_created(d: Seq<bool>, c: Cnt) -> bool {
     forall|s: u32| ((s as int) < d.len() && d[s as int]) <==> #[trigger] c(s) >= 1
 }
@@ -151,7 +156,7 @@ def discriminants():
 
 
 def build():
-    u = Unit('prep', ['C09', 'C04'])
+    u = Unit('prep', ['C09', 'C04', 'C12'])
     u.rlimit = 200
     u.assume('non-primitive plugin preprocessing is opaque: it may only add reads (each ext_reads increment it makes is a read by its own table)')
     u.assume('flag values 0, 1, 2 are distinct field elements; base_field_index is injective below the stated witness-count bound (not under contract)')
@@ -203,17 +208,15 @@ def build():
     g.rewrite_re('R11', r'(\w+) == F::(zero|one|two)\(\)', r'\1.feq(F::\2())', min_count=8)
     g.rewrite('R6', 'let private_input_wids: hashbrown::HashSet<u32> = self.private_input_rows.iter().map(|w| w.0).collect();',
               'let mut private_input_wids: HashSet<u32> = HashSet::new(); for q_ in 0..self.private_input_rows.len() { private_input_wids.insert(self.private_input_rows[q_].0); }')
-    g.rewrite('R6', '''let const_public_wids: hashbrown::HashSet<u32> = self .ops .iter() .filter_map(|op| match op { Op::Const { out, .. } => Some(out.0), Op::Public { out, .. } => Some(out.0), _ => None, }) .collect();''',
-              '''let mut const_public_wids: HashSet<u32> = HashSet::new();
-        for q_ in 0..self.ops.len() { match &self.ops[q_] { Op::Const { out, .. } => { const_public_wids.insert(out.0); } Op::Public { out, .. } => { const_public_wids.insert(out.0); } _ => {} } }''')
+    unfilter_map_collect_set(g)
     g.rewrite('R6', '''preprocessed.hint_output_wids = self .ops .iter() .filter_map(|op| { if let Op::Hint { outputs, .. } = op { Some(outputs.iter().map(|w| w.0)) } else { None } }) .flatten() .filter(|wid| !const_public_wids.contains(wid)) .collect();''',
               '''let mut how_: HashSet<u32> = HashSet::new();
         for q_ in 0..self.ops.len() { if let Op::Hint { outputs, .. } = &self.ops[q_] { for r_ in 0..outputs.len() { let wid = outputs[r_].0; if !const_public_wids.contains(&wid) { how_.insert(wid); } } } }
         preprocessed.hint_output_wids = how_;''')
     g.rewrite('R11', 'preprocessed.hint_output_wids.clone()', 'clone_u32_set(&preprocessed.hint_output_wids)')
     g.rewrite('R5', 'for op in &self.ops {', 'for oi_ in 0..self.ops.len() { let op = &self.ops[oi_];')
-    g.rewrite('R6', 'c.as_ref().map_or((WitnessId(0), F::zero()), |w| {', '(match c.as_ref() { None => (WitnessId(0), F::zero()), Some(w) => {')
-    g.rewrite('R6', '(*w, c_state) });', '(*w, c_state) } });')
+    unoption_filter(g)
+    unmap_or(g)
     g.rewrite('R6', 'preprocessed.primitive[2usize].extend([', 'preprocessed.primitive[2usize].extend_from_slice(&[')
     g.rewrite('R11', 'executor.preprocess(inputs, outputs, &mut preprocessed)?;', 'npo_preprocess::<F, D>(executor, inputs, outputs, &mut preprocessed)?;')
     g.rewrite('R6', 'executor.num_exposed_outputs().unwrap_or(outputs.len())', '(match executor.num_exposed_outputs() { Some(n_) => n_, None => outputs.len() })')
@@ -243,7 +246,6 @@ def build():
     # simple loops before the main one
     g.loop('for q_ in 0..self.private_input_rows.len()', invariants=[('t', 'true')])
     g.loop('for q_ in 0..self.ops.len()', invariants=[('t', 'true')], nth=0)
-    g.loop('for q_ in 0..self.ops.len()', invariants=[('t', 'true')], nth=1)
     g.loop('for r_ in 0..outputs.len()', invariants=[('t', 'true')])
 
     # ---- Const / Public arms: the row is a creator of `out`
@@ -270,6 +272,10 @@ def build():
                         assert(!(c_cr && a_cr && c_wid.0 == a.0)); // @@A:H_c_and_a_not_both_creators_of_one_slot
                         // with those excluded, the guards in the code (a/c aliased by out, defined[] tests) give one creator per slot
                         assert(one_creator(creators)); // @@A:one_creator_after_alu_row
+                        // C09, third clause: an operand of the row's relation takes part in the bus whenever its slot has a creator at all --
+                        // an earlier row, an input / hint slot at its first use, or this very row through `out`  (b and out always carry a role)
+                        assert(on_bus_when_created(def0, a.0, out.0, private_input_wids@, hint_output_wids@, a_state == F::fzero())); // @@A:operand_a_takes_part_in_the_witness_bus
+                        assert(c matches Some(w) ==> on_bus_when_created(def0, w.0, out.0, private_input_wids@, hint_output_wids@, c_state == F::fzero())); // @@A:operand_c_takes_part_in_the_witness_bus
                     }''')
     g.before('preprocessed.increment_ext_reads(&readers);', '''proof {
                         assert(readers@ =~= alu_row_readers(*a, *b, c_wid, *out, a_state, b_is_creator, c_state, out_is_creator)); // @@A:reader_list_is_flag_derived
